@@ -470,6 +470,7 @@ func checkCase(c Case, s *rt.Section) (*rt.Failure, info) {
 	if !json.Valid(doc) {
 		return s.NewFailure("snapshot", tag("c09:invalid-json"), c, clip(string(doc), 600), "a JSON document"), in
 	}
+	docKept := string(doc) // a copy: what the bytes were when the snapshot was taken
 	m, err, pi := restoreStore(doc, c.Mode, A.Attrs)
 	if pi != nil {
 		return s.NewFailure("restore", pi.Sig(), c, "decoding the snapshot panics: "+pi.Value+"\n"+pi.Stack, "a store"), in
@@ -558,10 +559,6 @@ func checkCase(c Case, s *rt.Section) (*rt.Failure, info) {
 					s.Class("detail-not-compared(shared sub-container)")
 					continue
 				}
-				if strings.Contains(x.a+x.b, "{'") && (inspectMap(A.Attrs).MultiKey || (A.Ret != nil && inspectValue(A.Ret).MultiKey)) {
-					s.Class("detail-not-compared(multi-key dict)")
-					continue
-				}
 			}
 			sig := "c09:follow/" + x.what
 			if x.what == "ops" {
@@ -582,6 +579,12 @@ func checkCase(c Case, s *rt.Section) (*rt.Failure, info) {
 				continue
 			}
 			return f, in
+		}
+	}
+	// a snapshot is the host's: taking another one of the same store later (a second save point) leaves its bytes alone
+	if _, e2, p2 := snapshotStore(A, c.Mode); e2 == nil && p2 == nil {
+		if string(doc) != docKept {
+			return s.NewFailure("snapshot", tag("c09:snapshot-bytes-changed"), c, "after a later snapshot of the same store the first document reads "+clip(string(doc), 300), "the bytes it had when it was taken: "+clip(docKept, 300)), in
 		}
 	}
 	for _, v := range shB.lazy {
